@@ -16,6 +16,7 @@ From Cedar Require Export TypecheckRun.
 From Cedar Require Export SchemaSynRun.
 From Cedar Require Export ExtParse.
 From Cedar Require Export Level.
+From Cedar Require Export ManifestRun.
 
 Definition dispatchers : list (string -> list sexp -> option sexp) :=
   [ run_core
@@ -32,6 +33,7 @@ Definition dispatchers : list (string -> list sexp -> option sexp) :=
   ; run_schema_syn
   ; run_ext
   ; run_level
+  ; run_manifest
   ].
 
 Fixpoint dispatch (ds : list (string -> list sexp -> option sexp)) (cmd : string) (args : list sexp) : sexp :=
